@@ -1068,7 +1068,10 @@ static void CodeRESTORE(Word Index) {
 
         Old            = FirstSaveState;
         FirstSaveState = Old->Next;
-        if (Old->SavePC != ActPC) {
+        /* a frame saved inside a structure definition that has been closed
+           since cannot bring the structure 'segment' back */
+
+        if ((Old->SavePC != ActPC) && ((Old->SavePC != StructSeg) || StructStack)) {
             ActPC     = Old->SavePC;
             DontPrint = True;
         }
